@@ -41,6 +41,9 @@ type monScenario struct {
 	NoStop   bool       `json:"no_stop,omitempty"`
 	WaitNS   int64      `json:"wait_ns,omitempty"`
 	Snapshot bool       `json:"-"`
+	// ConsumerNS: the OnMessage consumer takes this long per message (whoever hooks into the monitor may be slow: the
+	// next message then waits in the socket until it is read)
+	ConsumerNS int64 `json:"consumer_ns,omitempty"`
 }
 
 func runMonitor(t *testing.T, sc monScenario) *monResult {
@@ -64,6 +67,9 @@ func runMonitor(t *testing.T, sc monScenario) *monResult {
 			w.mu.Lock()
 			res.Callbacks = append(res.Callbacks, msg.Type().String())
 			w.mu.Unlock()
+			if sc.ConsumerNS > 0 {
+				time.Sleep(time.Duration(sc.ConsumerNS))
+			}
 		}
 		run := w.start(m)
 		synctest.Wait() // let the task dial and start reading before the first event
